@@ -88,7 +88,7 @@ package spdxexp
 //@   ensures[C03] !isErr(old(exp.err)) && result != nil ==> !isErr(exp.err)
 //@   loop 0:
 //@     invariant[C03] okExp(exp) && exp.err == old(exp.err)
-//@     invariant[C03] len(op) == 0 ==> exp.index == old(exp.index)
+//@     invariant[C03] len(op) == 0 && exp.index == old(exp.index)
 //@ end
 
 //@ func (*expressionStream).readID
